@@ -2,7 +2,7 @@
 (* Scenario: CTAP1 response encoding appended to a caller's buffer: part        *)
 (* lengths swept so that the total crosses every instantiated capacity at       *)
 (* every part boundary, pre-filled buffers, counters at byte boundaries.  C09.  *)
-EXTENDS Ctap, Gen
+EXTENDS Ctap, Gen, Lattice
 
 CONSTANT Deep
 
@@ -45,7 +45,14 @@ NewCases ==
     {[op |-> "u2f_register_new", tag |-> "register-new", header |-> h, key |-> EcdhKey(s), keyHandle |-> Pattern(1, kh),
       cert |-> Pattern(2, 30), sig |-> Pattern(3, 70)] : h \in {0, 5, 255}, s \in {1, 100, 200}, kh \in {0, 64, 255}}
 
-MC_Cases == {c \in RegCases \cup AuthCases \cup VerCases : Len(c.pre) <= c.cap} \cup NewCases
+\* the parts are opaque: contents that LOOK like DER / CBOR / padding must be copied verbatim
+Opaque(n) == {DerLike(n), DerShort(n), CborLike(n), Rep(255, n), Rep(0, n)}
+OpaqueCases ==
+    {UCase([Reg(5, 10, 0, 70) EXCEPT !.cert = c], << >>, 1500, "register-opaque-cert") : c \in Opaque(300) \cup Opaque(20) \cup Opaque(1024)}
+    \cup {UCase([Reg(5, 0, 40, 0) EXCEPT !.keyHandle = k, !.sig = g], <<170>>, 1500, "register-opaque-parts") : k \in Opaque(64), g \in Opaque(72)}
+    \cup {UCase([Auth(1, BN(7), 0) EXCEPT !.sig = g], << >>, 258, "authenticate-opaque-sig") : g \in Opaque(72) \cup Opaque(8)}
+
+MC_Cases == {c \in RegCases \cup AuthCases \cup VerCases : Len(c.pre) <= c.cap} \cup NewCases \cup OpaqueCases
 
 (***************************************************************************)
 (* C09 on the model                                                        *)
